@@ -10,6 +10,7 @@ criterion of `PowApprox` assumes — and it is FALSE for `q > 1/2` on the one-si
 -/
 import Mathlib.Analysis.Analytic.Binomial
 import Mathlib.Analysis.SpecificLimits.Basic
+import Mathlib.Analysis.SpecificLimits.Normed
 
 namespace OsmoVerif.MathM
 open Polynomial
@@ -122,5 +123,73 @@ theorem pow_series_tail_last {a y q : ℝ} (ha0 : 0 ≤ a) (ha1 : a ≤ 1) (hq :
     _ ≤ (|pterm a y n| * ((n : ℝ) / (n + 1)) * q) / (1 - q) := by
         apply div_le_div_of_nonneg_right (le_trans h2 h3) hd.le
     _ = _ := by ring
+
+/-! ### the alternating side (`y ≥ 0`, i.e. base `≥ 1`) -/
+
+open Filter Topology Finset in
+/-- remainder of a convergent alternating series with antitone magnitudes: at most the first omitted magnitude. -/
+theorem alt_series_remainder {f : ℕ → ℝ} {l : ℝ}
+    (hfl : Tendsto (fun n ↦ ∑ i ∈ range n, (-1 : ℝ) ^ i * f i) atTop (𝓝 l)) (hfa : Antitone f) (m : ℕ) :
+    |l - ∑ i ∈ range m, (-1 : ℝ) ^ i * f i| ≤ f m := by
+  rcases Nat.even_or_odd' m with ⟨k, rfl | rfl⟩
+  · have h1 := hfa.alternating_series_le_tendsto hfl k
+    have h2 := hfa.tendsto_le_alternating_series hfl k
+    rw [Finset.sum_range_succ, pow_mul, neg_one_sq, one_pow, one_mul] at h2
+    rw [abs_le]; constructor <;> linarith
+  · have h1 := hfa.alternating_series_le_tendsto hfl (k + 1)
+    have h2 := hfa.tendsto_le_alternating_series hfl k
+    rw [show 2 * (k + 1) = 2 * k + 1 + 1 by ring, Finset.sum_range_succ _ (2 * k + 1), pow_succ, pow_mul, neg_one_sq,
+      one_pow, one_mul, neg_one_mul] at h1
+    rw [abs_le]; constructor <;> linarith
+
+/-- for `y ≥ 0` the terms alternate from the second one on: `pterm (i+1) = (−1)^i·|pterm (i+1)|`. -/
+theorem pterm_alt {a y : ℝ} (ha0 : 0 ≤ a) (ha1 : a ≤ 1) (hy0 : 0 ≤ y) (i : ℕ) :
+    pterm a y (i + 1) = (-1 : ℝ) ^ i * |pterm a y (i + 1)| := by
+  induction i with
+  | zero =>
+    have : pterm a y (0 + 1) = a * y := by simp [pterm]
+    rw [this, abs_of_nonneg (by positivity)]; simp
+  | succ i ih =>
+    have hi0 : (0 : ℝ) ≤ i := by positivity
+    have hr : 0 ≤ (((i : ℝ) + 1) - a) * y / (((i : ℝ) + 1) + 1) := by
+      apply div_nonneg (mul_nonneg (by linarith) hy0) (by positivity)
+    have e : pterm a y (i + 1 + 1) = -(pterm a y (i + 1) * ((((i : ℝ) + 1) - a) * y / (((i : ℝ) + 1) + 1))) := by
+      rw [pterm]; push_cast; ring
+    have e2 : |pterm a y (i + 1 + 1)| = |pterm a y (i + 1)| * ((((i : ℝ) + 1) - a) * y / (((i : ℝ) + 1) + 1)) := by
+      rw [e, abs_neg, abs_mul, abs_of_nonneg hr]
+    rw [e2, e]
+    conv_lhs => rw [ih]
+    rw [pow_succ]; ring
+
+open Filter Topology Finset in
+/-- ALTERNATING remainder of the binomial series for `0 ≤ y < 1`: at most the first omitted term — for every `y < 1`,
+not only `y ≤ 1/2`. -/
+theorem pow_series_tail_alt {a y : ℝ} (ha0 : 0 ≤ a) (ha1 : a ≤ 1) (hy0 : 0 ≤ y) (hy1 : y < 1) (n : ℕ) :
+    |(1 + y) ^ a - psum a y n| ≤ |pterm a y (n + 1)| := by
+  have hyabs : |y| < 1 := by rwa [abs_of_nonneg hy0]
+  have hs := pterm_hasSum a y hyabs
+  have ht : HasSum (fun i => pterm a y (i + 1)) ((1 + y) ^ a - 1) := by
+    have := (hasSum_nat_add_iff' 1).mpr hs
+    simpa [pterm] using this
+  have hfl : Tendsto (fun n ↦ ∑ i ∈ range n, (-1 : ℝ) ^ i * |pterm a y (i + 1)|) atTop (𝓝 ((1 + y) ^ a - 1)) := by
+    have := ht.tendsto_sum_nat
+    refine this.congr (fun n => Finset.sum_congr rfl (fun i _ => pterm_alt ha0 ha1 hy0 i))
+  have hfa : Antitone (fun i => |pterm a y (i + 1)|) := by
+    apply antitone_nat_of_succ_le
+    intro i
+    have := abs_pterm_succ_le (y := y) ha0 ha1 (i + 1)
+    have h0 := abs_nonneg (pterm a y (i + 1))
+    have hy' : |y| ≤ 1 := hyabs.le
+    calc |pterm a y (i + 1 + 1)| ≤ |pterm a y (i + 1)| * |y| := this
+      _ ≤ |pterm a y (i + 1)| * 1 := mul_le_mul_of_nonneg_left hy' h0
+      _ = _ := mul_one _
+  have := alt_series_remainder hfl hfa n
+  have e : ∑ i ∈ range n, (-1 : ℝ) ^ i * |pterm a y (i + 1)| = psum a y n - 1 := by
+    unfold psum
+    rw [Finset.sum_range_succ', ← Finset.sum_congr rfl (fun i _ => pterm_alt ha0 ha1 hy0 i)]
+    simp [pterm]
+  rw [e] at this
+  have e2 : (1 + y) ^ a - 1 - (psum a y n - 1) = (1 + y) ^ a - psum a y n := by ring
+  rwa [e2] at this
 
 end OsmoVerif.MathM
